@@ -1,6 +1,7 @@
 import EmmetProofs.HtmlScan
 import EmmetProofs.SplitValueRanges
 import EmmetProofs.CssMatchRanges
+import EmmetProofs.HtmlAttrs
 /-! # C16 — scanners are total and report only well-formed ranges (HTML scanner, CSS scanner, split_value; all strings) -/
 namespace EmmetProps
 open H
@@ -34,6 +35,14 @@ theorem C16_css_outward (s : C.Str) (pos : Int) :
     ∀ x ∈ C.outwardLoop s.toArray pos (C.scan s) [] none [], C.ROK s.length x := C.outward_ranges s pos
 theorem C16_css_inward (s : C.Str) (pos : Int) :
     ∀ x ∈ C.inwardLoop s.toArray pos (C.scan s) [] none, C.ROK s.length x := C.inward_ranges s pos
+
+/-- HTML attribute parser: for EVERY string, the attributes `attributes()` reports are ordered, non-overlapping, in-range slices:
+each name range is non-empty and is exactly the name's text, a value starts right after the `=` that follows the name, is non-empty
+and is exactly the value's text (`H.Ordered`, `H.AttrOK`). -/
+theorem C16_html_attributes (src : H.Str) : H.Ordered src (H.attributesLoop (src.length + 1) src 0 []) := H.attributes_ranges src
+
+example : (H.attributesLoop 100 ("a=\"b c\" *d {e}=f".toList.map Char.toNat) 0 []).map (fun a => (a.nameStart, a.nameEnd, a.value.map (·.2)))
+    = [(0, 1, some (2, 7)), (8, 10, none), (11, 14, some (15, 16))] := by decide +kernel
 
 -- non-vacuity: a source with a selector, two properties, a comment, an unterminated string and an unbalanced brace
 example : (C.scan (("a{b:c;/*x*/d:'e}".toList).map Char.toNat)).length = 5 := by decide +kernel
